@@ -37,7 +37,7 @@ func (g *genCtx) idOrJunk(n int, pJunk float64) int {
 	return 1 + g.rng.Intn(n)
 }
 
-var pwJunk = []string{"wrong", "empty", "hash", "long", "nul", "prefix"}
+var pwJunk = []string{"wrong", "empty", "hash", "long", "nul", "prefix", "own:lead", "own:trail", "own:nl", "own:tab", "own:case", "own:twice"}
 var tokJunk = []string{"empty", "flip:0", "flip:255", "flip:256", "flip:511", "flip:37", "flip:300", "trunc", "ext", "trail", "splice", "stored", "zero", "garbage", "missing",
 	"sfx:dot", "sfx:amp", "sfx:space", "sfx:nul", "sfx:dup", "sfx:paren", "pfx:space"}
 
@@ -78,7 +78,7 @@ func familyConfig(family string, rng *rand.Rand) Scenario {
 		ExpireAfter: 2 + rng.Intn(2), RecoverTTL: 2 + rng.Intn(2), RecoverLogin: rng.Intn(2) == 0,
 		LogoutMethod: []string{"DELETE", "POST", "GET"}[rng.Intn(3)], MWReqs: rng.Intn(4),
 		MWFail: []string{"404", "401", "redirect"}[rng.Intn(3)], ErrWrites: rng.Intn(2) == 0,
-		TotpOneTime: rng.Intn(2) == 0, FoldPid: rng.Intn(3) == 0, RegNoWhitelist: rng.Intn(3) == 0, JSON: rng.Intn(4) == 0, AppHandles2FA: rng.Intn(3) == 0}
+		TotpOneTime: rng.Intn(2) == 0, FoldPid: rng.Intn(3) == 0, RegNoWhitelist: rng.Intn(3) == 0, JSON: rng.Intn(4) == 0, AppHandles2FA: rng.Intn(3) == 0, SelfAuth: rng.Intn(3) == 0}
 	switch rng.Intn(3) {
 	case 1:
 		c.Whitelist = []string{"app1"}
@@ -298,7 +298,7 @@ func (g *genCtx) nextEvent(family string) sut.Event {
 		e.Tok = g.idOrJunk(iss["otp"], 0.3)
 		if e.Tok <= 0 {
 			e.Tok = -1
-			e.Junk = g.pick("empty", "garbage", "hash")
+			e.Junk = g.pick("empty", "garbage", "hash", "own:lead", "own:trail", "own:nl", "own:case", "own:twice")
 		}
 		if ot := o.Db[e.Pid].Otps; len(ot) > 0 && g.chance(0.5) {
 			e.Tok = ot[g.rng.Intn(len(ot))]
